@@ -1,4 +1,5 @@
 From GV Require Import Common.Outcome C13.Model C13.Spec C13.Proofs.
+From GV Require Import C13.PipelineModel C13.PipelineSpec C13.PipelineProofs.
 
 Theorem C13_subst_mirror_meets_spec : subst_mirror_meets_spec_stmt.
 Proof. exact subst_mirror_meets_spec. Qed.
@@ -51,3 +52,57 @@ Print Assumptions C13_fill_spec.
 Theorem C13_rule_new_no_panic : rule_new_no_panic_stmt.
 Proof. exact rule_new_no_panic. Qed.
 Print Assumptions C13_rule_new_no_panic.
+
+(* ---- compile-time pipeline = run-time pipeline over the C14 codec (PipelineSpec.v) ---- *)
+
+Theorem C13_ct_equals_rt_generic : ct_equals_rt_generic_stmt.
+Proof. exact ct_equals_rt_generic. Qed.
+Print Assumptions C13_ct_equals_rt_generic.
+
+Theorem C13_ct_equals_rt : ct_equals_rt_stmt.
+Proof. exact ct_equals_rt. Qed.
+Print Assumptions C13_ct_equals_rt.
+
+Theorem C13_ct_equals_rt_bytes : ct_equals_rt_bytes_stmt.
+Proof. exact ct_equals_rt_bytes. Qed.
+Print Assumptions C13_ct_equals_rt_bytes.
+
+Theorem C13_parser_data_reconstitutes : parser_data_reconstitutes_stmt.
+Proof. exact parser_data_reconstitutes. Qed.
+Print Assumptions C13_parser_data_reconstitutes.
+
+Theorem C13_ct_parse_format_independent : ct_parse_format_independent_stmt.
+Proof. exact ct_parse_format_independent. Qed.
+Print Assumptions C13_ct_parse_format_independent.
+
+Theorem C13_format_mismatch_breaks : format_mismatch_breaks_stmt.
+Proof. exact format_mismatch_breaks. Qed.
+Print Assumptions C13_format_mismatch_breaks.
+
+Theorem C13_kind_is_passed_through : kind_is_passed_through_stmt.
+Proof. exact kind_is_passed_through. Qed.
+Print Assumptions C13_kind_is_passed_through.
+
+Theorem C13_quote_rule_roundtrip : quote_rule_roundtrip_stmt.
+Proof. exact quote_rule_roundtrip. Qed.
+Print Assumptions C13_quote_rule_roundtrip.
+
+Theorem C13_quote_start_state_roundtrip : quote_start_state_roundtrip_stmt.
+Proof. exact quote_start_state_roundtrip. Qed.
+Print Assumptions C13_quote_start_state_roundtrip.
+
+Theorem C13_ct_lexerdef_equals_rt : ct_lexerdef_equals_rt_stmt.
+Proof. exact ct_lexerdef_equals_rt. Qed.
+Print Assumptions C13_ct_lexerdef_equals_rt.
+
+Theorem C13_ct_lex_equals_rt : ct_lex_equals_rt_stmt.
+Proof. exact ct_lex_equals_rt. Qed.
+Print Assumptions C13_ct_lex_equals_rt.
+
+Theorem C13_rt_lexerdef_no_panic : rt_lexerdef_no_panic_stmt.
+Proof. exact rt_lexerdef_no_panic. Qed.
+Print Assumptions C13_rt_lexerdef_no_panic.
+
+Theorem C13_lexerdef_flags_needed : lexerdef_flags_needed_stmt.
+Proof. exact lexerdef_flags_needed. Qed.
+Print Assumptions C13_lexerdef_flags_needed.
